@@ -574,6 +574,18 @@ pub fn exercise(model: &StableModel, seed: u64) -> Result<u64, String> {
                     continue;
                 }
                 let at = lo + splitmix64(&mut p) % (last + 2 - lo);
+                if at < last && splitmix64(&mut p) % 3 == 0 {
+                    // a shorter overwriting append that repeats what is stored (same terms, same payloads): the log
+                    // still ends at the last appended entry afterwards
+                    let k = 1 + splitmix64(&mut p) % (last - at);
+                    let ents: Vec<Entry> = (at..at + k).map(|i| m.entry(i).unwrap().clone()).collect();
+                    log.push(format!("append-same[{}..{}]", at, at + k - 1));
+                    mem.wl().append(&ents).map_err(|e| format!("{log:?}: append failed {e:?}"))?;
+                    m.append(&ents);
+                    let probe = splitmix64(&mut p);
+                    compared += differential_of(&mem, &m, probe).map_err(|e| format!("after {log:?}: {e}"))?;
+                    continue;
+                }
                 let k = 1 + splitmix64(&mut p) % 4;
                 let mut term = if at > first { m.term(at - 1).unwrap_or(last_term) } else { m.snap_term }.max(1);
                 if at <= last {
